@@ -59,7 +59,7 @@ def run(d, srcs, dialects="all", expect=None, nsh=12, tag="", expect_takes=None,
                 r["expect_takes"] = expect_takes[r["id"]]
             w_ = sqlwalk.walk(r)
             if keep_events:
-                takes_seen[(r["id"], r["dialect"])] = [[e["name"], e["q"]] for e in w_ if e["ev"] == "Take"]
+                takes_seen[(r["id"], r["dialect"])] = [[e["name"], e["q"], e["kind"]] for e in w_ if e["ev"] == "Take"]
             evs += w_
         evs.append(sqlwalk.E("Stop"))
         tp = os.path.join(d, f"{tag}walk{i}.ndjson"); write_ndjson(tp, evs)
